@@ -366,19 +366,34 @@ impl LsmVerifier {
     }
 
     fn verify_contents(&self, setsum: Setsum) -> Result<(), SError> {
-        let mut cursor = self.get_cursor(setsum)?;
-        cursor.seek_to_first()?;
-        cursor.next()?;
-        let mut computed = sst::Setsum::default();
-        while let Some(kvr) = cursor.key_value() {
-            computed.insert(kvr);
+        // NOTE:  A table that was retired and then created again exists twice, in the trash and
+        // under sst/, and the copy under sst/ is the one the tree reads.  Every copy is checked.
+        let mut found = false;
+        for path in [SST_FILE(&self.root, setsum), TRASH_SST(&self.root, setsum)] {
+            let file = match sst::file_manager::open_without_manager(&path) {
+                Ok(file) => file,
+                Err(_) => continue,
+            };
+            found = true;
+            let mut cursor = Sst::from_file_handle(file)?.cursor();
+            cursor.seek_to_first()?;
             cursor.next()?;
+            let mut computed = sst::Setsum::default();
+            while let Some(kvr) = cursor.key_value() {
+                computed.insert(kvr);
+                cursor.next()?;
+            }
+            let computed = computed.into_inner();
+            if computed != setsum {
+                return Err(corruption("table contents do not match the table's setsum")
+                    .with_debug_field("path", path.to_string_lossy())
+                    .with_debug_field("setsum", setsum.hexdigest())
+                    .with_debug_field("computed", computed.hexdigest()));
+            }
         }
-        let computed = computed.into_inner();
-        if computed != setsum {
-            return Err(corruption("table contents do not match the table's setsum")
-                .with_debug_field("setsum", setsum.hexdigest())
-                .with_debug_field("computed", computed.hexdigest()));
+        if !found {
+            // Neither copy can be opened: report the error the lookup gives.
+            self.get_cursor(setsum)?;
         }
         Ok(())
     }
